@@ -8,7 +8,7 @@ store incl. journals; judged in Coq (specification on the implementation trace f
 import vlib
 from checks import ledger_common as lc
 
-MODE = 3      # bit 0: reads vs specification (dump after rollback = dump recorded at that commit), bit 1: roots
+MODE = 11     # bit 0: reads vs specification (dump after rollback = dump recorded at that commit), bit 1: roots, bit 3: stored code hash
 
 
 def gen_block(r, allow_add=True):
@@ -117,6 +117,7 @@ def run(ctx):
         m = 60 if ctx.quick else 1500
         groups += [[[o for o in lc.gen_soup(r, r.randrange(10, 60)) if o[0] != "getcommitted" and not (o[0] == "setcode" and o[2] is None)]]
                    for _ in range(m)]
+        groups += lc.scenario_groups(r, 4 if ctx.quick else 60)
         # non-UTF-8 storage keys (open finding): own key universe
         bad_keys = [b"\xff\x01", b"\xfe", b"a", b"\xc3\xa9", b"\xc3"]
         tot = dict(ok=0, known=0, violation=0, mismatch=0, domain=0)
